@@ -54,8 +54,10 @@ def instances(tier):
                     for k1 in range(len(KINDS)):
                         if tier == "quick" and (mode != "do-fault" or k0 not in quick_kinds or k1 not in quick_kinds):
                             continue
-                        if tier == "thorough" and mode in ("do-stop", "undo-fault") and (k0 not in quick_kinds or k1 not in quick_kinds):
-                            continue  # the full 5x5 first-two-kinds grid for fault-in-do and stop-in-undo; 4x4 for the other two modes
+                        if tier == "thorough" and mode in ("do-stop", "undo-fault"):
+                            continue  # three sub-changes: the full 5x5 grid for fault-in-do, 4x4 for stop-in-undo; the other two modes stay at two
+                        if tier == "thorough" and mode == "undo-stop" and (k0 not in quick_kinds or k1 not in quick_kinds):
+                            continue
                         out.append(("%s.m%d.%s.%s" % (mode, m, KINDS[k0], KINDS[k1]), dict(mode=mode, m=m, first=[k0, k1], tier=tier)))
     return out
 
